@@ -152,10 +152,29 @@ func patternMatches(p *censorgen.Pattern, src, s *censorgen.Stmt) (Tri, string) 
 		}
 		return Undecided, "cousin-with-generalisation"
 	}
+	// row-count relatives of INSERT ... VALUES statements (censorgen/rows.go): only what is certain is decided
+	if v, rel, ok := p.RowRelation(src, s); ok {
+		if v == censorgen.RowsNoMatch {
+			return No, rel
+		}
+		return Undecided, rel
+	}
 	if strings.Join(src.Direct, ",") != strings.Join(s.Direct, ",") {
 		return No, "othertable" // derived from a statement over another table
 	}
 	return Undecided, "same-kind-same-tables"
+}
+
+// patternMatchesIn is patternMatches for a rule of a given handler kind. The row-count relations are judged for
+// allow rules only ("not admitted by the allow rules in front of a deny-all terminator"): that a DENY pattern does not
+// also catch a statement with additional or missing VALUES rows is promised nowhere (catching it is the restrictive
+// direction), so under deny these cases are observed and counted, never judged.
+func patternMatchesIn(hkind string, p *censorgen.Pattern, src, s *censorgen.Stmt) (Tri, string) {
+	t, rel := patternMatches(p, src, s)
+	if hkind == "deny" && t == No && strings.HasPrefix(rel, "rows:") {
+		return Undecided, "rows-relative-vs-deny-pattern"
+	}
+	return t, rel
 }
 
 // Decision is the oracle's evaluation of one configuration on one input.
@@ -210,7 +229,7 @@ func Expect(c *Config, in Input, pool []*censorgen.Stmt) Decision {
 				}
 			}
 			for _, p := range h.Patterns {
-				switch t, why := patternMatches(p.Pat, pool[p.SrcID], in.S); {
+				switch t, why := patternMatchesIn(h.Kind, p.Pat, pool[p.SrcID], in.S); {
 				case t == Yes && hit == "":
 					hit = "pattern"
 				case t == Undecided && undecided == "":
